@@ -430,7 +430,7 @@ def check_case(case, momenta, n, rng_tol, M0, adapter=None, label=""):
     # ---- 3-body: Dalitz closed form
     if case.get("dalitz") and set(final_ids) == {1, 2, 3}:
         masses = {f"m_{i}": np.sqrt(np.maximum(np.asarray(frames.invariant_mass2(momenta, [i]), dtype=float), 0)) for i in (1, 2, 3)}
-        for (i, j) in [(1, 2), (2, 3), (3, 1)]:
+        for (i, j) in [(1, 2), (2, 3), (3, 1), (2, 1), (3, 2), (1, 3)]:  # cyclic and anti-cyclic argument orders
             pair = sorted((i, j))
             hel = min(i, j)
             name = f"theta_{hel}^{join(pair)}"
